@@ -10,17 +10,17 @@ namespace Tickit
 /-- `add_wakeup` overwrites the component's single entry and touches no other. -/
 theorem addWakeup_lookup (w : Wakeups) (c c' : Comp) (t : SimTime) :
     alookup (addWakeup w c t) c' = if c' = c then some t else alookup w c' := by
-  sorry
+  exact alookup_upsert w c c' t
 
 theorem addWakeup_unique (w : Wakeups) (h : UniqueKeys w) (c : Comp) (t : SimTime) :
     UniqueKeys (addWakeup w c t) := by
-  sorry
+  exact h.upsert c t
 
 /-- at most one entry per component: the bookkeeping never exceeds the number of distinct
 components that ever asked. -/
 theorem addWakeup_length (w : Wakeups) (c : Comp) (t : SimTime) :
     (addWakeup w c t).length = if (alookup w c).isSome then w.length else w.length + 1 := by
-  sorry
+  exact length_upsert w c t
 
 /-- `get_first_wakeups` returns the minimum requested time and exactly the components
 holding it; nothing is invented. -/
@@ -29,20 +29,20 @@ theorem firstWakeups_spec (w : Wakeups) (h : UniqueKeys w) (cs : List Comp) (m :
     (∀ c, c ∈ cs ↔ alookup w c = some m) ∧
     (∀ c t, alookup w c = some t → m ≤ t) ∧
     (∃ c, alookup w c = some m) ∧ cs.Nodup := by
-  sorry
+  exact firstWakeups_spec' w h cs m hf
 
 theorem firstWakeups_none (w : Wakeups) : (firstWakeups w).2 = none ↔ w = [] := by
-  sorry
+  rw [firstWakeups_snd, minTime_eq_none]; simp
 
 /-- serving removes exactly the served entries: a served callback is not served again,
 an unserved one stays pending. -/
 theorem delWakeups_lookup (w : Wakeups) (h : UniqueKeys w) (cs : List Comp) (c : Comp) :
     alookup (delWakeups w cs) c = if c ∈ cs then none else alookup w c := by
-  sorry
+  exact delWakeups_lookup' w h cs c
 
 theorem delWakeups_unique (w : Wakeups) (h : UniqueKeys w) (cs : List Comp) :
     UniqueKeys (delWakeups w cs) := by
-  sorry
+  exact delWakeups_unique' w h cs
 
 /-- **pending callbacks are never overtaken**: after serving the first wakeups at time `m`,
 every remaining entry is strictly later than `m`; so a callback pending for time `t` is
@@ -51,25 +51,42 @@ again first. -/
 theorem served_then_later (w : Wakeups) (h : UniqueKeys w) (cs : List Comp) (m : SimTime)
     (hf : firstWakeups w = (cs, some m)) (c : Comp) (t : SimTime)
     (hc : alookup (delWakeups w cs) c = some t) : m < t := by
-  sorry
+  obtain ⟨hcs, hle, _, _⟩ := firstWakeups_spec' w h cs m hf
+  rw [delWakeups_lookup' w h] at hc
+  split at hc
+  · simp at hc
+  · rename_i hmem
+    have h1 : m ≤ t := hle c t hc
+    have h2 : m ≠ t := fun he => hmem ((hcs c).mpr (he ▸ hc))
+    exact Int.lt_iff_le_and_ne.mpr ⟨h1, h2⟩
 
 /-- nested scheduler: the components selected as due at tick time `t` are exactly those
 whose entry is `≤ t`; with the invariant "entries ≥ the system's reported minimum = t" these
 are exactly the entries equal to `t`. -/
 theorem nestedDue_spec (w : Wakeups) (h : UniqueKeys w) (t : SimTime) (c : Comp) :
     c ∈ nestedDue w t ↔ ∃ t', alookup w c = some t' ∧ t' ≤ t := by
-  sorry
+  exact nestedDue_spec' w h t c
 
 theorem nestedDue_exact (w : Wakeups) (h : UniqueKeys w) (t : SimTime)
     (hmin : (firstWakeups w).2 = some t) (c : Comp) :
     c ∈ nestedDue w t ↔ alookup w c = some t := by
-  sorry
+  have hf : firstWakeups w = ((firstWakeups w).1, some t) := by rw [← hmin]
+  obtain ⟨_, hle, _, _⟩ := firstWakeups_spec' w h _ t hf
+  rw [nestedDue_spec' w h]
+  constructor
+  · rintro ⟨t', hl, ht⟩
+    have := hle c t' hl
+    have : t' = t := Int.le_antisymm ht this
+    rw [hl, this]
+  · intro hl; exact ⟨t, hl, Int.le_refl _⟩
 
 /-- what a system component reports upward is the minimum inner wakeup. -/
 theorem system_callback_is_min (w : Wakeups) (h : UniqueKeys w) (m : SimTime)
     (hf : (firstWakeups w).2 = some m) :
     (∃ c, alookup w c = some m) ∧ ∀ c t, alookup w c = some t → m ≤ t := by
-  sorry
+  have hf' : firstWakeups w = ((firstWakeups w).1, some m) := by rw [← hf]
+  obtain ⟨_, hle, hex, _⟩ := firstWakeups_spec' w h _ m hf'
+  exact ⟨hex, hle⟩
 
 example : firstWakeups [("a", 5), ("b", 3), ("c", 3)] = (["b", "c"], some 3) := by decide
 
